@@ -191,6 +191,63 @@ def conversion_roundtrip(ci, v, boxed, depth):
     return type(cv) is VL.variable_type_from_name(col) and cv.value == v + 1
 
 
+class _KeyTerm:
+  def __init__(self, *t):
+    self.t = t
+
+  def __eq__(self, o):
+    return isinstance(o, _KeyTerm) and self.t == o.t
+
+  def __hash__(self):
+    return hash(self.t)
+
+
+class LinenDraws(nn.Module):
+  """returns the dropout key it is given at apply time"""
+
+  @nn.compact
+  def __call__(self, x):
+    w = self.variable('params', 'w', lambda: 3)
+    key = self.make_rng('dropout') if self.has_rng('dropout') else None
+    return key, x * w.value
+
+
+def tonnx_uses_call_time_rngs(own, call, x, draws):
+  """ToNNX(module, rngs=A)(x, rngs=B): the Linen module consumes keys from B when
+  B is given (else from A); the stream actually used advances by one per call and
+  the other one is untouched"""
+  from harness import c09 as C9
+  from flax.core import scope as S
+  saved = (S._fold_in_static, S._is_valid_rngs, S._is_valid_rng)
+  S._fold_in_static = lambda rng, data: _KeyTerm('fold', rng, tuple(data))
+  S._is_valid_rngs = lambda r: True
+  S._is_valid_rng = lambda r: True
+  try:
+    with C9.RngEnv(), Registry():
+      m = bridge.ToNNX(LinenDraws(), rngs=None)
+      bridge.lazy_init(m, x)                      # no rng needed to initialise
+      A_ = nnx.Rngs(dropout=1) if own else None
+      m.rngs = A_
+      for i in range(draws):
+        B_ = nnx.Rngs(dropout=2) if call else None
+        if A_ is None and B_ is None:
+          raise Reject()
+        key, y = m(x, rngs=B_) if call else m(x)
+        src = B_ if call else A_
+        seed = 2 if call else 1
+        cnt = 0 if call else i
+        want = _KeyTerm('fold', C9.TKey(('fold', ('seed', seed), cnt)), (1,))
+        if key != want or y != x * 3:
+          return False
+        if src.dropout.count.value != C9.TCount(cnt + 1):
+          return False
+        if call and A_ is not None and A_.dropout.count.value != C9.TCount(0):
+          return False
+    return True
+  finally:
+    S._fold_in_static, S._is_valid_rngs, S._is_valid_rng = saved
+
+
 def registry(n, o0, o1, o2, a0, a1, a2):
   """variable_name_from_type(variable_type_from_name(n)) == n and back; registered
   pairs stay 1-1; unknown names raise unless allow_register"""
@@ -215,7 +272,9 @@ def registry(n, o0, o1, o2, a0, a1, a2):
         if VL.variable_name_from_type(t) != name:
           return False
       elif o == 2:
-        class Fresh(nnx.Variable):
+        # a new type; for even name indices it SUBCLASSES an already registered
+        # type (nnx.Param), which must still get its own name
+        class Fresh(nnx.Param if a % 2 == 0 else nnx.Variable):
           pass
         Fresh.__name__ = name + '_T'
         try:
@@ -243,7 +302,8 @@ EXPLANATION = (
     '<=3 calls with and without mutable=; conversion both ways; registry histories.')
 ASSUMPTIONS = (
     'wrapped modules avoid real RNG/array ops (variables are initialised without '
-    'rng; ToLinen(skip_rng=True)); nesting inside a parent of the other API beyond '
+    'rng; ToLinen(skip_rng=True); the RNG-routing obligation runs with jax.random '
+    'and _fold_in_static replaced by term constructors); nesting inside a parent of the other API beyond '
     'one level is not covered',
     'jax.core.get_opaque_trace_state compat shim installed by the harness process',
 )
@@ -264,6 +324,11 @@ def obligations(tier):
          split=('ci', 'boxed', 'nested', 'mut'), timeout=900, funcs=F,
          per_path_timeout=90.0,
          bounds='4 collections, boxed/unboxed param, flat/nested, <=3 calls'),
+      Ob('tonnx_uses_call_time_rngs', tonnx_uses_call_time_rngs,
+         dict(own=B(), call=B(), x=v, draws=I(1, 2)), timeout=600, funcs=F,
+         per_path_timeout=90.0,
+         bounds='wrapper-held and/or call-time Rngs, 1..2 calls; jax.random is a '
+                'term algebra'),
       Ob('tolinen_behaves_like_nnx', tolinen_behaves_like_nnx,
          dict(x=v, w=v, c=v, sharded=B(), calls=I(1, 2 if quick else 3), mut=B()),
          split=('sharded', 'mut'), timeout=900, funcs=F, per_path_timeout=90.0),
